@@ -94,3 +94,9 @@ func H_C10_key_containers() {
 	o := ref.Opts{Kinds: ref.KArray | ref.KObject | ref.KFloat | ref.KNil, ElemKinds: ref.KNil | ref.KFloat | ref.KString | ref.KBool, MaxStr: 1, MaxElems: 1}
 	keyAgree(ref.Value("a", o), ref.Value("b", o), "container")
 }
+
+//verif:harness props=C10 tier=quick bounds="index keys of arrays and objects with <=2 elements from {nil, 0.0, symbolic bool}: empty vs [nil], [v] vs [v,nil], nil members inside containers; key order = reference order, equal iff equal, prefix-free"
+func H_C10_key_containers_small() {
+	o := ref.Opts{Kinds: ref.KArray | ref.KObject, ElemKinds: ref.KNil | ref.KFloat | ref.KBool, ConcFloats: true, OneFloat: true, MaxElems: 2}
+	keyAgree(ref.Value("a", o), ref.Value("b", o), "container-small")
+}
